@@ -598,11 +598,11 @@ UNIT = Unit('tp', [
     Src('define.rs'),
     Ghost(_t('keyword_stub.rs'), name='keyword_stub'),
     Src('token.rs', fns=TOKEN, props=['C05', 'C10'],
-        regex_rules=[('rule13_string_eq_str', r'(\b\w+\.string\(\)) == (\w+)', r'vx_string_eq_str(&\1, \2)')]),
+        regex_rules=[('rule13_string_eq_str', r'(\b\w+\.string\(\)) == (\w+)', r'vx_string_eq_str(&\1, \2)'), ('rule13_string_eq_str', r'\b(\w+) == (\w+\.string\(\))', r'vx_string_eq_str(&\2, \1)')]),
     Ghost(_t('ghost_tokenizer.rs'), props=['C10'], name='ghost_tokenizer'),
     Src('tokenizer.rs', fns=TOKENIZER, props=['C01!', 'C05', 'C10'],
         item_attr={'Tokenizer': '#[verifier::external_derive]'},
-        regex_rules=[('rule13_string_eq_str', r'(\b\w+\.string\(\)) == (\w+)', r'vx_string_eq_str(&\1, \2)')]),
+        regex_rules=[('rule13_string_eq_str', r'(\b\w+\.string\(\)) == (\w+)', r'vx_string_eq_str(&\1, \2)'), ('rule13_string_eq_str', r'\b(\w+) == (\w+\.string\(\))', r'vx_string_eq_str(&\2, \1)')]),
     Ghost(_t('ghost_parser.rs'), props=['C02', 'C05'], name='ghost_parser'),
     Src('parser.rs', fns=PARSER, props=['C01!', 'C02', 'C05'],
         keep_fns=lambda k: k.startswith('Parser::'),
